@@ -262,6 +262,8 @@ impl FileHasher<'_> {
         let key = key.as_ref();
         let hash = self.load_hash(key, metadata);
         if let Some((_, hash)) = hash {
+            // A file that cannot be read must fail the same way as without the cache.
+            open_noatime(chunk.path)?;
             progress(chunk.len.0 as usize);
             return Ok(hash);
         }
@@ -322,6 +324,8 @@ impl FileHasher<'_> {
         let key = key.as_ref();
         let hash = self.load_hash(key, metadata);
         if let Some(hash) = hash {
+            // A file that cannot be read must fail the same way as without the cache.
+            open_noatime(chunk.path)?;
             progress(chunk.len.0 as usize);
             return Ok(hash);
         }
